@@ -37,8 +37,8 @@ Theorem C10_cw_placements_named : forall wd ls inv st st' d, world_wf wd -> Inv_
                    Forall (fun t => t_model t = b_model b) (b_tasks b)) (d_batches d).
 Proof.
   intros wd ls inv st st' d Hw Hi H. destruct (cw_schedule_spec _ _ _ _ _ _ Hw Hi H) as [_ [_ [S3 [S4 _]]]].
-  rewrite Forall_forall in *. intros b Hb. destruct (S3 b Hb) as [_ [_ [B3 [_ [_ B6]]]]]. destruct (S4 b Hb) as [L1 [L2 L3]].
-  split; [rewrite L1; apply Z.le_refl|]. split; [assumption|]. split; [assumption|]. split; [assumption|].
+  rewrite Forall_forall in *. intros b Hb. destruct (S3 b Hb) as [_ [_ [B3 [_ [_ B6]]]]]. destruct (S4 b Hb) as [L1 [L2 [p [w [Q1 [Q2 [Q3 [Q4 _]]]]]]]].
+  split; [rewrite L1; apply Z.le_refl|]. split; [assumption|]. split; [exists p, w; repeat split; assumption|]. split; [assumption|].
   eapply Forall_impl; [|exact B6]. cbn. intros t [E _]. assumption.
 Qed.
 Print Assumptions C10_cw_placements_named.
@@ -79,7 +79,9 @@ Theorem C10_cw_monitor : forall wd o, mon_invocation wd o = true <->
   mon_batches wd (oi_now o) (oi_pools o) (oi_batches o) = true /\
   NoDup (oi_cancelled o ++ oi_placed o) /\
   (forall i, In i (oi_cancelled o ++ oi_placed o) -> In i (map t_id (oi_offered o))) /\
-  (forall b t, In b (oi_batches o) -> In t (ob_tasks b) -> hopeless wd (oi_now o) t = false).
+  (forall b t, In b (oi_batches o) -> In t (ob_tasks b) -> hopeless wd (oi_now o) t = false) /\
+  (forall b t0, In b (oi_batches o) -> hd_error (ob_tasks b) = Some t0 ->
+     evicted_at_end (oi_load o) (t_model t0) (ob_pool b) (ob_worker b) false = false).
 Proof. exact mon_invocation_iff. Qed.
 Print Assumptions C10_cw_monitor.
 Theorem C10_cw_example : world_wf ex_wd /\ bs_pos ex_wd /\ world_nonneg ex_wd /\
